@@ -4,6 +4,13 @@
 // Every case is one generated .osm.pbf file: description (pbfgen.FileDesc), the message
 // trees obtained by an independent protowire walk over the very bytes fed to the decoder,
 // Header() and the object sequence returned by osmpbf.Scanner for several decoder counts.
+//
+// Round 3 additions.  Judged in Coq like every other observation: scans whose consumer writes
+// into and appends to every object it is handed (activeConsumer).  Judged on the Go side
+// (wire.Case.OracleFail; Go slices/aliasing and the decoder's reuse-on-reject paths have no Coq
+// model here): every returned object still equals, at end of scan, the state its consumer left it
+// in; filtered scans return exactly the kept elements of the description (filteredRuns, with a
+// self-test that a corrupted observation is reported); padded blocks at size thresholds (sizeCase).
 package main
 
 import (
@@ -14,6 +21,7 @@ import (
 	"math/rand"
 	"os"
 
+	"github.com/paulmach/osm"
 	"github.com/paulmach/osm/osmpbf"
 	"verif/harness/pbfgen"
 	"verif/harness/pbfwire"
@@ -129,17 +137,161 @@ func scanFrom(r io.Reader, procs int) (objs []pbfwire.Obs, status int, errs stri
 	return objs, 0, ""
 }
 
+// consume: what a consumer that owns a returned object may do with it: overwrite entries of its
+// slices in place and append to them (round 3: elements must not share backing arrays in a way
+// that makes this visible in another element).
+func consume(o osm.Object) {
+	tag := osm.Tag{Key: "consumer", Value: "appended"}
+	switch v := o.(type) {
+	case *osm.Node:
+		for i := range v.Tags {
+			v.Tags[i].Value = "consumer-overwrote"
+		}
+		v.Tags = append(v.Tags, tag)
+	case *osm.Way:
+		for i := range v.Tags {
+			v.Tags[i].Value = "consumer-overwrote"
+		}
+		v.Tags = append(v.Tags, tag)
+		for i := range v.Nodes {
+			v.Nodes[i].Lat, v.Nodes[i].Lon = 12.5, -12.5
+		}
+		v.Nodes = append(v.Nodes, osm.WayNode{ID: -12345, Lat: 1, Lon: 2})
+	case *osm.Relation:
+		for i := range v.Tags {
+			v.Tags[i].Value = "consumer-overwrote"
+		}
+		v.Tags = append(v.Tags, tag)
+		for i := range v.Members {
+			v.Members[i].Role = "consumer-overwrote"
+		}
+		v.Members = append(v.Members, osm.Member{Type: osm.TypeNode, Ref: -12345, Role: "consumer"})
+	}
+}
+
+const activeConsumer = "consumer-writes-into-and-appends-to-returned-objects"
+
+// filterCfg is a scanner configuration for the Go-judged filtered runs (the Coq-judged version of
+// filtering is C08; here the filters are the means to reach the decoder's memory-reuse paths:
+// "no element inherits a value from an earlier element", also when the earlier one was rejected).
+type filterCfg struct {
+	SkipNodes, SkipWays, SkipRelations bool
+	Node, Way, Relation                pbfwire.Pred
+}
+
+// scanWith scans with an optional configuration and an optional active consumer.  objs are the
+// snapshots taken at return time; moved != "" when an object changed after it was returned
+// (compared with the state the consumer left it in).
+func scanWith(r io.Reader, procs int, cf *filterCfg, active bool) (objs []pbfwire.Obs, status int, errs string, moved string) {
+	sc := osmpbf.New(context.Background(), r, procs)
+	defer sc.Close()
+	if cf != nil {
+		sc.SkipNodes, sc.SkipWays, sc.SkipRelations = cf.SkipNodes, cf.SkipWays, cf.SkipRelations
+		if cf.Node.Code != 0 {
+			sc.FilterNode = func(n *osm.Node) bool { return cf.Node.Eval(int64(n.ID), n.Version, len(n.Tags)) }
+		}
+		if cf.Way.Code != 0 {
+			sc.FilterWay = func(w *osm.Way) bool { return cf.Way.Eval(int64(w.ID), w.Version, len(w.Tags)) }
+		}
+		if cf.Relation.Code != 0 {
+			sc.FilterRelation = func(r *osm.Relation) bool { return cf.Relation.Eval(int64(r.ID), r.Version, len(r.Tags)) }
+		}
+	}
+	var kept []osm.Object
+	var left []pbfwire.Obs
+	for sc.Scan() {
+		o := sc.Object()
+		objs = append(objs, pbfwire.Snapshot(o))
+		if active {
+			consume(o)
+		}
+		kept = append(kept, o)
+		left = append(left, pbfwire.Snapshot(o))
+	}
+	for i, o := range kept {
+		again := pbfwire.Snapshot(o)
+		if !again.Equal(&left[i]) {
+			moved = fmt.Sprintf("object %d (%v) changed after it was returned: %+v -> %+v", i, o.ObjectID(), left[i], again)
+			break
+		}
+	}
+	if err := sc.Err(); err != nil {
+		return objs, 1, err.Error(), moved
+	}
+	return objs, 0, "", moved
+}
+
+// keep: the meaning of a configuration on the elements a file encodes
+func (cf *filterCfg) keep(e *pbfgen.Element) bool {
+	switch e.Kind {
+	case "node":
+		return !cf.SkipNodes && cf.Node.Eval(e.ID, int(e.Version), len(e.Tags))
+	case "way":
+		return !cf.SkipWays && cf.Way.Eval(e.ID, int(e.Version), len(e.Tags))
+	}
+	return !cf.SkipRelations && cf.Relation.Eval(e.ID, int(e.Version), len(e.Tags))
+}
+
+// filteredRuns scans data under every configuration and judges the result on the Go side:
+// observed = the kept elements of pbfgen.Elements(d), field for field.  "" = all hold.
+func filteredRuns(d *pbfgen.FileDesc, data []byte, cfgs []filterCfg, procs []int, corrupt bool) (string, []interface{}) {
+	var log []interface{}
+	all := pbfgen.Elements(d)
+	for k := range cfgs {
+		cf := &cfgs[k]
+		var want []pbfgen.Element
+		for i := range all {
+			if cf.keep(&all[i]) {
+				want = append(want, all[i])
+			}
+		}
+		for pi, p := range procs {
+			active := (pi+k)%2 == 1
+			objs, st, es, moved := scanWith(bytes.NewReader(data), p, cf, active)
+			if corrupt && len(objs) > 0 {
+				objs[len(objs)-1].Version++
+			}
+			log = append(log, map[string]interface{}{"config": *cf, "procs": p, "active_consumer": active, "returned": len(objs), "kept_elements": len(want)})
+			where := fmt.Sprintf("filtered run (Go-judged) config %+v procs=%d active-consumer=%v: ", *cf, p, active)
+			if st != 0 {
+				return where + "Err() = " + es, log
+			}
+			if moved != "" {
+				return where + moved, log
+			}
+			if msg := goOracleWant(want, objs); msg != "" {
+				return where + msg, log
+			}
+		}
+	}
+	return "", log
+}
+
+// filterCfgs are the configurations of the filtered runs of file i
+func filterCfgs(i int) []filterCfg {
+	h := pbfwire.Pred{Code: 5, A: int64(3 + i%6)}
+	even := pbfwire.Pred{Code: 2, A: 2, B: int64(i % 2)}
+	return []filterCfg{
+		{Node: h, Way: h, Relation: h},
+		{Node: pbfwire.Pred{Code: 3}, Way: even, Relation: even, SkipNodes: i%4 == 3},
+	}
+}
+
 type fileCase struct {
-	Desc   *pbfgen.FileDesc `json:"desc"`
-	Header interface{}      `json:"header_observed,omitempty"`
-	HErr   string           `json:"header_err,omitempty"`
-	Obs    []observation    `json:"observations"`
-	Note   string           `json:"note,omitempty"`
+	Desc     *pbfgen.FileDesc `json:"desc"`
+	Header   interface{}      `json:"header_observed,omitempty"`
+	HErr     string           `json:"header_err,omitempty"`
+	Obs      []observation    `json:"observations"`
+	Filtered []interface{}    `json:"filtered_runs_judged_in_go,omitempty"`
+	Note     string           `json:"note,omitempty"`
 }
 
 // mutate, when non-nil, corrupts the observations (canaries).
 // readers used for the next buildCase calls (nil = bytes.Reader only)
 var extraReaders []readerSpec
+
+// configurations of the Go-judged filtered runs of the next buildCase calls (nil = none)
+var filterFor []filterCfg
 
 func buildCase(d *pbfgen.FileDesc, procsList []int, class string, mutate func(fc *fileCase, hdr **osmpbf.Header)) (*wire.Case, error) {
 	data, frames := pbfgen.Encode(d)
@@ -178,6 +330,27 @@ func buildCase(d *pbfgen.FileDesc, procsList []int, class string, mutate func(fc
 		objs, st, es := scanFrom(rs.mk(data, frames), p)
 		record(p, rs.name, objs, st, es)
 	}
+	oracleFail := ""
+	{ // the consumer that writes into what it was given: same objects at return time, none changed later
+		p := procsList[len(procsList)-1]
+		objs, st, es, moved := scanWith(bytes.NewReader(data), p, nil, true)
+		record(p, activeConsumer, objs, st, es)
+		if moved != "" {
+			oracleFail = "active consumer, procs=" + fmt.Sprint(p) + ": " + moved
+		}
+		objs, st, es, moved = scanWith(bytes.NewReader(data), 1, nil, true)
+		record(1, activeConsumer, objs, st, es)
+		if moved != "" && oracleFail == "" {
+			oracleFail = "active consumer, procs=1: " + moved
+		}
+	}
+	if filterFor != nil && mutate == nil {
+		msg, log := filteredRuns(d, data, filterFor, []int{1, procsList[len(procsList)-1]}, false)
+		fc.Filtered = log
+		if oracleFail == "" {
+			oracleFail = msg
+		}
+	}
 	if mutate != nil {
 		mutate(fc, &hdr)
 	}
@@ -188,7 +361,7 @@ func buildCase(d *pbfgen.FileDesc, procsList []int, class string, mutate func(fc
 		fc.HErr = herr.Error()
 	}
 
-	c := &wire.Case{Class: class, Desc: fc}
+	c := &wire.Case{Class: class, Desc: fc, OracleFail: oracleFail}
 	pool := pbfwire.NewPool()
 	for i := range fc.Obs {
 		for j := range fc.Obs[i].Objs {
@@ -519,7 +692,7 @@ var procsAll = []int{1, 2, 3, 7, 16}
 func main() {
 	a := wire.ParseArgs()
 	w := wire.NewWriter("C01", a.Seed, a.Tier)
-	w.Rule = "one case per generated PBF file (pbfgen.RandomFile: 1-5 blocks, 0-3 groups, dense/way/relation/mixed groups, every subset of optional columns and Info fields varying block to block, granularity/offsets/date granularity, raw+zlib, permuted layouts, unknown fields, header field subsets) scanned with 3-5 decoder counts from {1,2,3,7,16} from a bytes.Reader and again through readers that deliver the same bytes in pieces (chunks of 1/2/3/5/7/random bytes, cut points 1-3 bytes into every size prefix and inside every blob header and blob, EOF returned with or after the last data); non-trivial = the file encodes at least one element; distinct = distinct token streams"
+	w.Rule = "one case per generated PBF file (pbfgen.RandomFile: 1-5 blocks, 0-3 groups, dense/way/relation/mixed groups, every subset of optional columns and Info fields varying block to block, granularity/offsets/date granularity, raw+zlib, permuted layouts, unknown fields, header field subsets) scanned with 3-5 decoder counts from {1,2,3,7,16} from a bytes.Reader and again through readers that deliver the same bytes in pieces (chunks of 1/2/3/5/7/random bytes, cut points 1-3 bytes into every size prefix and inside every blob header and blob, EOF returned with or after the last data) and twice by a consumer that overwrites the slice entries of every object it is handed and appends to them; random files carry first-class zero values (raw timestamp 0 also leading a dense column, version/changeset/uid 0, raw coordinates 0), member types outside the enum 0..2, and every 9th is a headerless restart stream of 2-6 blocks; plus pbfgen.DirectedCorpus (fewer refs/members after a rejected way/relation, Sort.Type_then_ID header, headerless streams, zero values). Go-judged (OracleFail): objects unchanged at end of scan, filtered scans (2-3 configurations per file) = kept elements of the description, one padded block at a size threshold; non-trivial = the file encodes at least one element; distinct = distinct token streams"
 	rng := wire.Rng(a.Seed)
 	nfiles := int(90 * a.Scale)
 	nprocs := 3
@@ -547,16 +720,60 @@ func main() {
 			fail(fmt.Errorf("corpus %d invalid: %v", i, err))
 		}
 		extraReaders = readerSpecs(a.Seed)
+		filterFor = filterCfgs(i)
 		c, err := buildCase(d, procsAll, "corpus", nil)
-		extraReaders = nil
+		extraReaders, filterFor = nil, nil
 		if err != nil {
 			fail(err)
 		}
 		w.Add(c)
 	}
+	// directed corpus (round 3): interactions of two features; the unfiltered scans are judged in Coq
+	// like every other file, the file's own filter configuration on the Go side
+	for i, dc := range pbfgen.DirectedCorpusTier(a.Tier == "thorough") {
+		if pbfgen.Validate(dc.Desc) != nil {
+			continue // plain nodes: outside the description language (C08 carries that file as a tree)
+		}
+		own := filterCfg{SkipNodes: dc.SkipNodes, SkipWays: dc.SkipWays, SkipRelations: dc.SkipRelations,
+			Node:     pbfwire.Pred{Code: dc.Node[0], A: dc.Node[1], B: dc.Node[2]},
+			Way:      pbfwire.Pred{Code: dc.Way[0], A: dc.Way[1], B: dc.Way[2]},
+			Relation: pbfwire.Pred{Code: dc.Relation[0], A: dc.Relation[1], B: dc.Relation[2]}}
+		all := readerSpecs(a.Seed + int64(i))
+		extraReaders = []readerSpec{all[6], all[i%len(all)]}
+		filterFor = append([]filterCfg{own}, filterCfgs(i)...)
+		c, err := buildCase(dc.Desc, dc.Procs, "directed:"+dc.Name, nil)
+		extraReaders, filterFor = nil, nil
+		if err != nil {
+			fail(err)
+		}
+		w.Add(c)
+		w.Count("directed")
+	}
+	// vacuity guard of the Go-side oracle for filtered runs: a corrupted observation must be reported
+	{
+		dc := pbfgen.DirectedCorpus()[0]
+		data, _ := pbfgen.Encode(dc.Desc)
+		if msg, _ := filteredRuns(dc.Desc, data, filterCfgs(0), []int{1}, true); msg == "" {
+			fail(fmt.Errorf("self-test: the Go-side oracle accepted a corrupted filtered observation"))
+		}
+	}
+	// size thresholds of one block (Go-judged: the 16 MiB payloads are not shipped to Coq)
+	sizes := []sizeSpec{{16<<20 + 1, true}, {4096, true}, {65536, false}, {65537, true}}
+	if a.Tier == "thorough" {
+		sizes = append(sizes, sizeSpec{16<<20 - 1, true}, sizeSpec{16 << 20, true}, sizeSpec{24 << 20, true}, sizeSpec{32<<20 - 1, true},
+			sizeSpec{16<<20 + 1, false}, sizeSpec{31 << 20, false}, sizeSpec{8176, true}, sizeSpec{8177, true}, sizeSpec{32768, true}, sizeSpec{2048, false})
+	}
+	for _, sz := range sizes {
+		w.Add(sizeCase(sz))
+		w.Count("block-size-threshold")
+	}
 	var descs []*pbfgen.FileDesc
 	for i := 0; i < nfiles; i++ {
-		opts := pbfgen.Opts{}
+		opts := pbfgen.Opts{ZeroPct: 10, UnknownMemberPct: 12}
+		if i%9 == 7 { // a stream that starts with data (restart at an offset)
+			opts.NoHeader, opts.MinBlocks, opts.MaxBlocks = true, 2, 6
+			w.Count("headerless")
+		}
 		switch i % 6 {
 		case 3:
 			opts.Kinds = "d"
@@ -577,8 +794,9 @@ func main() {
 		} else { // quick: the frame-cut reader always, plus two others in rotation
 			extraReaders = []readerSpec{all[6], all[(2*i)%len(all)], all[(2*i+1)%len(all)]}
 		}
+		filterFor = filterCfgs(i)
 		c, err := buildCase(d, pick(i), "random", nil)
-		extraReaders = nil
+		extraReaders, filterFor = nil, nil
 		for _, o := range fc0(c) {
 			for _, r := range o.Readers {
 				if r != "" {
@@ -597,6 +815,9 @@ func main() {
 		w.Add(bigCase(brng, pbfgen.Opts{MinBlocks: 300, MaxBlocks: 400, MaxGroups: 2, MaxItems: 6}, procsAll, "400-small-blocks"))
 		w.Add(bigCase(brng, pbfgen.Opts{MinBlocks: 40, MaxBlocks: 60, MaxGroups: 1, MaxItems: 8000, Kinds: "d", MinElements: 1}, []int{1, 3, 16}, "8k-dense-groups"))
 		w.Add(bigCase(brng, pbfgen.Opts{MinBlocks: 120, MaxBlocks: 150, MaxGroups: 3, MaxItems: 400, MaxTags: 6, MaxRefs: 200, MaxMembers: 100}, []int{1, 7}, "mixed-large"))
+		w.Add(bigCase(brng, pbfgen.Opts{MinBlocks: 6, MaxBlocks: 8, MaxGroups: 2, MaxItems: 40, MaxTags: 300, MaxRefs: 2100, MaxMembers: 3000, Kinds: "wr", ZeroPct: 10, UnknownMemberPct: 10}, []int{1, 3}, "long-ways-and-relations"))
+		w.Add(bigCase(brng, pbfgen.Opts{MinBlocks: 30, MaxBlocks: 40, MaxItems: 50, Kinds: "w", ZeroPct: 10}, []int{1, 2, 7}, "ways-only"))
+		w.Add(bigCase(brng, pbfgen.Opts{MinBlocks: 30, MaxBlocks: 40, MaxItems: 50, Kinds: "r", UnknownMemberPct: 20, NoHeader: true}, []int{1, 2, 7}, "relations-only-headerless"))
 		w.Count("big-files")
 	}
 	// canaries, each on the first generated file it applies to
@@ -632,7 +853,10 @@ func main() {
 // goOracle compares observed objects with the format's meaning on the Go side (used for files
 // that are too large to ship to Coq: hundreds of blocks, 8000-element dense groups).
 func goOracle(d *pbfgen.FileDesc, objs []pbfwire.Obs) string {
-	want := pbfgen.Elements(d)
+	return goOracleWant(pbfgen.Elements(d), objs)
+}
+
+func goOracleWant(want []pbfgen.Element, objs []pbfwire.Obs) string {
 	if len(want) != len(objs) {
 		return fmt.Sprintf("%d objects returned, the file encodes %d", len(objs), len(want))
 	}
@@ -704,6 +928,60 @@ func bigCase(rng *rand.Rand, opts pbfgen.Opts, procs []int, label string) *wire.
 	c.Len(0).Bool(false).Len(0).Len(1).Len(1).Int(1).Int(0).Len(0)
 	c.Trivial = false
 	c.Toks = append(c.Toks, []uint64{}...)
+	return c
+}
+
+// sizeSpec: one data block whose serialized PrimitiveBlock is exactly Raw bytes long (padding: an
+// unused string-table entry), between two ordinary blocks; Zlib: compressed (raw_size = Raw).
+type sizeSpec struct {
+	Raw  int
+	Zlib bool
+}
+
+func sizeCase(sz sizeSpec) *wire.Case {
+	mk := func(pad int) *pbfgen.FileDesc {
+		d := &pbfgen.FileDesc{Header: &pbfgen.Header{Required: []string{"OsmSchema-V0.6", "DenseNodes"}}}
+		for i := 0; i < 3; i++ {
+			b := &pbfgen.Block{Strings: []string{""}}
+			b.Zlib = sz.Zlib
+			dn := allCols(b, int64(10*i+1), int64(10*i+2), int64(10*i+3))
+			w := &pbfgen.Way{ID: int64(i), Refs: []int64{1, 2, 3}, Info: pbfgen.Info{Visible: true}, Tags: []pbfgen.Tag{b.Tag("size", "threshold")}}
+			b.Groups = []*pbfgen.Group{{Items: []pbfgen.Item{{Dense: dn}}}, {Items: []pbfgen.Item{{Way: w}}}}
+			if i == 1 && pad >= 0 {
+				b.Strings = append(b.Strings, string(bytes.Repeat([]byte{'p'}, pad)))
+			}
+			d.Blocks = append(d.Blocks, b)
+		}
+		return d
+	}
+	// find the padding that gives exactly sz.Raw bytes
+	size := func(pad int) int { return len(pbfgen.Serialize(pbfgen.BlockTree(mk(pad).Blocks[1]))) }
+	pad := sz.Raw - size(0)
+	for k := 0; k < 8 && pad >= 0 && size(pad) != sz.Raw; k++ {
+		pad -= size(pad) - sz.Raw
+	}
+	c := &wire.Case{Class: fmt.Sprintf("block-size:%d", sz.Raw)}
+	if pad < 0 || size(pad) != sz.Raw {
+		c.OracleFail = fmt.Sprintf("harness: cannot build a block of exactly %d bytes", sz.Raw)
+	}
+	d := mk(pad)
+	data, _ := pbfgen.Encode(d)
+	nobj := 0
+	for _, p := range []int{1, 2} {
+		if c.OracleFail != "" {
+			break
+		}
+		objs, st, es := scan(data, p)
+		nobj = len(objs)
+		if st != 0 {
+			c.OracleFail = fmt.Sprintf("procs=%d: Err() = %s", p, es)
+		} else if msg := goOracle(d, objs); msg != "" {
+			c.OracleFail = fmt.Sprintf("procs=%d: %s", p, msg)
+		}
+	}
+	c.Desc = map[string]interface{}{"block_size_threshold": sz, "padding_string_length": pad, "file_bytes": len(data), "objects": nobj,
+		"note": "three blocks, the middle one padded (unused string table entry) to exactly this serialized size; a valid blob may inflate to anything below 32 MiB; judged by the Go-side oracle (observed = pbfgen.Elements); regenerate: the description is a function of these two numbers"}
+	c.Len(0).Bool(false).Len(0).Len(1).Len(1).Int(1).Int(0).Len(0)
 	return c
 }
 
